@@ -127,7 +127,7 @@ theorem kwargs_support_not_transparent_varkw :
 
 /-- **try_value returns its fallback exactly when f raises**, and f's result otherwise -/
 theorem try_fallback_iff (s : Sig) (body : PDict → Res Val) (p : PDict) (rest : List (Cls × PDict)) (c : Call)
-    (hp : p.lookup "return_value" ≠ some (.cell (.bool false))) :
+    (hp : returnsValue p = true) :
     (∀ v, evalChain s body rest c = .ok v → evalChain s body ((.tryValue, p) :: rest) c = .ok v) ∧
     (∀ e, evalChain s body rest c = .error e →
       evalChain s body ((.tryValue, p) :: rest) c = .ok ((p.lookup "value").getD (.cell .none))) := by
@@ -189,12 +189,12 @@ theorem try_presets_spec {A E : Type} (f : A → Except E Val) (a : A) :
 theorem evalChain_tryValue_eq (s : Sig) (body : PDict → Res Val) (p : PDict) (rest : List (Cls × PDict)) (c : Call) :
     evalChain s body ((.tryValue, p) :: rest) c =
       tryValueCode (evalChain s body rest) (repeatOf p)
-        (decide (p.lookup "return_value" ≠ some (.cell (.bool false)))) ((p.lookup "value").getD (.cell .none)) c := by
-  by_cases hp : p.lookup "return_value" = some (.cell (.bool false))
-  · simp only [hp, ne_eq, not_true_eq_false, decide_false, try_value_no_return_spec, evalChain]
+        (returnsValue p) ((p.lookup "value").getD (.cell .none)) c := by
+  cases hp : returnsValue p
+  · simp only [try_value_no_return_spec, evalChain, hp]
     cases evalChain s body rest c <;> simp
-  · simp only [hp, ne_eq, not_false_eq_true, decide_true, try_value_spec, evalChain, if_false]
-    cases evalChain s body rest c <;> rfl
+  · simp only [try_value_spec, evalChain, hp]
+    cases evalChain s body rest c <;> simp [resultOr]
 
 /-- … and so is the `try_back` layer -/
 theorem evalChain_tryBack_eq (s : Sig) (body : PDict → Res Val) (p : PDict) (rest : List (Cls × PDict)) (c : Call) :
@@ -204,10 +204,10 @@ theorem evalChain_tryBack_eq (s : Sig) (body : PDict → Res Val) (p : PDict) (r
 
 /-- **try_value in a stack** (`return_value` not False): what the stack below returns, else the fallback -/
 theorem try_value_stack_spec (s : Sig) (body : PDict → Res Val) (p : PDict) (rest : List (Cls × PDict)) (c : Call)
-    (hp : p.lookup "return_value" ≠ some (.cell (.bool false))) :
+    (hp : returnsValue p = true) :
     evalChain s body ((.tryValue, p) :: rest) c =
       .ok (resultOr (evalChain s body rest c) ((p.lookup "value").getD (.cell .none))) := by
-  rw [evalChain_tryValue_eq, decide_eq_true hp, try_value_spec]
+  rw [evalChain_tryValue_eq, hp, try_value_spec]
 
 /-- non-vacuity: `try_zero(f)` on a raising and on a returning call, `repeat = 2` -/
 example :
@@ -1120,5 +1120,97 @@ example :
     evalChain s recBody [(.tryValue, []), (.cache, [])] { args := [.cell (.str "~arr:1,2")], kw := [("axis", .cell (.int 5)), ("zz", .cell (.int 1))] } =
       applyFn s recBody { args := [.cell (.str "~arr:1,2")], kw := [("axis", .cell (.int 5)), ("zz", .cell (.int 1))] } := by
   decide +kernel
+
+
+/-! ## round h6: wrapping twice with DIFFERENT parameters
+
+In the code every subclass `__init__` passes its complete parameter set to `wrapper.__init__` (`try_value`: `repeat, sleep,
+return_value, value, verbose` - `_decorators.py:229-230`; `loops`: `types`; `pd2np`: `exc`; the others none), so `kw.update(kwargs)`
+overwrites EVERY parameter of the wrapper that is unwrapped / cut out: `try_value(value=1)(try_value(value=2, repeat=3)(f))` has
+`repeat=0`.  The model's `mk` takes an arbitrary `kwargs`; it is faithful to the code for complete parameter dicts (`Covers`: the
+new dict has every key of the old ones - the harness only sends such), and there the outer application wins: -/
+
+/-- **`W_p(D₁(…Dₙ(W_q(f)))) == W_p(D₁(…Dₙ(f)))`** for parameter dicts `p`, `q` of the same decorator with `p` complete
+(`wrap_chain_idem` is the case `p = q`; no hypothesis ties `p` to `q` beyond the key sets) -/
+theorem wrap_twice_params (cls : Cls) (kw1 kw2 : PDict) (hn1 : (kw1.map (·.1)).Nodup) (hn2 : (kw2.map (·.1)).Nodup)
+    (hk : Covers kw2 kw1) (ds : List (Cls × PDict)) (hds : ∀ d ∈ ds, d.1 ≠ cls) (fn : WFn)
+    (h : (classes fn.chain).Nodup) (hp : ∀ p, paramsOf cls fn.chain = some p → Covers kw2 p) :
+    WFn.Eqv (mk cls kw2 (mkMany ds (mk cls kw1 fn))) (mk cls kw2 (mkMany ds fn)) := by
+  have hg := mk_nodup cls kw1 fn h
+  have hY := mkMany_nodup ds _ hg
+  have hZ := mkMany_nodup ds _ h
+  have hgc := mk_chain cls kw1 fn h
+  have hsg : stripAll cls (mk cls kw1 fn).chain = stripAll cls fn.chain := by
+    rw [hgc]
+    simp only [stripAll, List.filter, bne_self_eq_false]
+    exact stripAll_idem cls fn.chain
+  have htail : stripAll cls (mkMany ds (mk cls kw1 fn)).chain = stripAll cls (mkMany ds fn).chain := by
+    rw [stripAll_mkMany_ne cls ds hds _ hg, stripAll_mkMany_ne cls ds hds _ h, hsg]
+    rfl
+  have hpY : paramsOf cls (mkMany ds (mk cls kw1 fn)).chain = some (newParams cls kw1 fn.chain) := by
+    rw [paramsOf_mkMany_ne cls ds hds _ hg, hgc]
+    simp [paramsOf, List.find?]
+  have hpZ : paramsOf cls (mkMany ds fn).chain = paramsOf cls fn.chain := paramsOf_mkMany_ne cls ds hds _ h
+  have hcov : Covers kw2 (newParams cls kw1 fn.chain) := by
+    unfold newParams
+    cases hq : paramsOf cls fn.chain with
+    | none => exact hk
+    | some p => exact covers_update kw2 p kw1 hn1 (hp p hq) hk
+  have hhead : PDict.Eqv (newParams cls kw2 (mkMany ds (mk cls kw1 fn)).chain) (newParams cls kw2 (mkMany ds fn).chain) := by
+    have e1 : newParams cls kw2 (mkMany ds (mk cls kw1 fn)).chain = (newParams cls kw1 fn.chain).update kw2 := by
+      simp only [newParams, hpY]
+    have e2 : PDict.Eqv (newParams cls kw2 (mkMany ds fn).chain) kw2 := by
+      simp only [newParams, hpZ]
+      cases hq : paramsOf cls fn.chain with
+      | none => intro k; rfl
+      | some p => exact update_covered_eqv p kw2 hn2 (hp p hq)
+    rw [e1]
+    intro k
+    exact (update_covered_eqv _ kw2 hn2 hcov k).trans (e2 k).symm
+  refine ⟨?_, ?_, ?_⟩
+  · simp only [mk_base, mkMany_base]
+  · rw [mk_chain cls kw2 _ hY, mk_chain cls kw2 _ hZ, htail]
+    rfl
+  · intro i x y hx hy
+    rw [mk_chain cls kw2 _ hY] at hx
+    rw [mk_chain cls kw2 _ hZ] at hy
+    cases i with
+    | zero =>
+      simp only [List.getElem?_cons_zero, Option.some.injEq] at hx hy
+      subst hx hy
+      exact hhead
+    | succ i =>
+      simp only [List.getElem?_cons_succ] at hx hy
+      rw [htail] at hx
+      rw [hx] at hy
+      cases hy
+      intro k; rfl
+
+/-- … and the parameters the outer application ends up with are exactly its own -/
+theorem wrap_twice_outer_params (cls : Cls) (kw1 kw2 : PDict) (hn1 : (kw1.map (·.1)).Nodup) (hn2 : (kw2.map (·.1)).Nodup)
+    (hk : Covers kw2 kw1) (fn : WFn) (h : (classes fn.chain).Nodup)
+    (hp : ∀ p, paramsOf cls fn.chain = some p → Covers kw2 p) :
+    ∃ p rest, (mk cls kw2 (mk cls kw1 fn)).chain = (cls, p) :: rest ∧ PDict.Eqv p kw2 := by
+  have hg := mk_nodup cls kw1 fn h
+  refine ⟨_, _, mk_chain cls kw2 _ hg, ?_⟩
+  have hgc := mk_chain cls kw1 fn h
+  have : paramsOf cls (mk cls kw1 fn).chain = some (newParams cls kw1 fn.chain) := by
+    rw [hgc]; simp [paramsOf, List.find?]
+  simp only [newParams, this]
+  apply update_covered_eqv _ kw2 hn2
+  cases hq : paramsOf cls fn.chain with
+  | none => exact hk
+  | some p => exact covers_update kw2 p kw1 hn1 (hp p hq) hk
+
+/-- non-vacuity (`try_value(repeat=0, value=1)` over `try_value(repeat=3, value=2)`: `repeat` is reset), and why completeness is
+needed: with a partial dict the model keeps the inner `repeat=3`, which no constructor of the code can do -/
+example :
+    let f : WFn := { chain := [], base := 0 }
+    let q : PDict := [("repeat", .cell (.int 3)), ("value", .cell (.int 2))]
+    let p : PDict := [("repeat", .cell (.int 0)), ("value", .cell (.int 1))]
+    (mk .tryValue p (mk .tryValue q f)).chain = [(.tryValue, p)] ∧
+    (mk .tryValue [("value", .cell (.int 1))] (mk .tryValue q f)).chain = [(.tryValue, [("repeat", .cell (.int 3)), ("value", .cell (.int 1))])] := by
+  decide
+
 
 end Pyg.Props.C18
